@@ -30,6 +30,8 @@ StepReset ==
     /\ result' = [t \in 1..MaxTasks |-> None]
     /\ waiters' = [t \in 1..MaxTasks |-> {}]
     /\ woken' = {}
+    /\ rlock' = [t \in 1..MaxTasks |-> "free"]
+    /\ rq' = [t \in 1..MaxTasks |-> <<>>]
     /\ chan' = <<>>
     /\ pc' = [s \in Sub |-> IF Len(Calls[s]) = 0 THEN "finished" ELSE "track"]
     /\ call' = [s \in Sub |-> 1]
@@ -38,19 +40,30 @@ StepReset ==
     /\ ppc' = "idle" /\ pcur' = NoEvent /\ ptask' = NoTask /\ runs' = 0
 
 \* one poll of a submitter: the spec action is determined by the state; location, task
-\* instance, number of finished calls and the last returned result are bound to the log
+\* instance, number of finished calls and the last returned result are bound to the log.  The
+\* first check has no schedule point inside: one poll runs the whole critical section
+\* (CheckAtomic / GrantedCheckAtomic).
 StepSub ==
-    /\ Ev.ev = "Sub"
-    /\ SubNext(Ev.s)
+    /\ Ev.ev = "Sub" /\ Ev.pc # "blocked_after_check"
+    /\ (SubNext(Ev.s) \/ CheckAtomic(Ev.s) \/ GrantedCheckAtomic(Ev.s))
     /\ pc'[Ev.s] = Ev.pc
     /\ held'[Ev.s] = Ev.held
     /\ Len(ret'[Ev.s]) = Ev.nret
     /\ Ev.nret > 0 => ret'[Ev.s][Ev.nret] = [id |-> Ev.last.id, run |-> Ev.last.run]
 
-\* one poll of the pipeline loop
+\* a poll after the check that ended pending: either the submitter was notified and now queues
+\* on the busy result mutex (WakeWait), or nothing happened (not notified yet / still queued)
+StepSubBlocked ==
+    /\ Ev.ev = "Sub" /\ Ev.pc = "blocked_after_check"
+    /\ \/ WakeWait(Ev.s)
+       \/ /\ \/ (pc[Ev.s] = "await" /\ Ev.s \notin woken)
+              \/ (pc[Ev.s] = "t_wait" /\ rlock[held[Ev.s]] # Ev.s)
+          /\ UNCHANGED vars
+
+\* one poll of the pipeline loop (the writer's lock, set, unlock is one poll: PSetAtomic)
 StepPipe ==
     /\ Ev.ev = "Pipe"
-    /\ PipeNext
+    /\ (PipeNext \/ PSetAtomic)
     /\ ppc' = Ev.pc
     /\ runs' = Ev.runs
 
@@ -58,7 +71,7 @@ TraceInit == Init /\ i = 1
 TraceNext ==
     /\ i <= Len(Rec)
     /\ i' = i + 1
-    /\ (StepReset \/ StepSub \/ StepPipe)
+    /\ (StepReset \/ StepSub \/ StepSubBlocked \/ StepPipe)
 TraceSpec == TraceInit /\ [][TraceNext]_tvars
 
 TraceAccepted ==
